@@ -1304,7 +1304,7 @@ impl Engine for SchedX {
             }
         }
         let mut p = Plan::new(cases, rule);
-        p.budget_s = if thorough { 1700 } else { 50 };
+        p.budget_s = if thorough { 1700 } else { 55 };
         p.assumptions = vec![
             "sequentially consistent interleavings at the granularity of the scheduling points; code between two points runs without preemption (its shared accesses are all behind the locks the points guard)".into(),
             "helper threads of an API call (I/O pool, sync pools) run freely while their API thread is the one released".into(),
